@@ -291,6 +291,32 @@ def q6_sequential_consumer(ctx, rep):
                     rep.bad(R, "callback-in-deferred-closure:%s:%s" % (lab, short(b.path)), s2.where, "%s runs in a closure handed to %s" % (lab, s.ck))
 
 
+def q7_head_of_queue(ctx, rep):
+    """the consumer's receive hands out the head of the queue directly: the wrapper method it
+    calls returns crossbeam's recv() result without buffering or re-ordering"""
+    A = ctx.A
+    R = "Q7"
+    from mirq.interp import Interp
+    cl, _ = A.reducer_closure
+    I = Interp(ctx.prog)
+    n = 0
+    for s in ctx.prog.sites(cl):
+        cb = ctx.prog.callee_body(s)
+        if cb is None or (cb.j.get("impl_adt") or "") != A.receiver_adt["path"]:
+            continue
+        n += 1
+        rep.note_fn(cb.path)
+        rt = I.expand(I.ret_term(cb))
+        x = rt
+        if x[0] == "resok":
+            x = x[1]
+        good = x[0] == "call" and x[2] in CB_RECV and x[1][0] == cb.path
+        rep.check(good, R, "receive-returns-head:%s" % short(cb.path), ctx.where(cb), "%s returns crossbeam's recv() result as is (%s)" % (short(cb.path), term_str(rt)), "%s returns %s: items are buffered or re-ordered between the queue and the reducer" % (short(cb.path), term_str(rt)))
+        vec_ops = [x_ for x_ in ctx.prog.sites(cb) if x_.ck.startswith("std::vec::Vec::") or x_.ck.startswith("std::collections::")]
+        rep.check(not vec_ops, R, "no-buffer-in-receive:%s" % short(cb.path), ctx.where(cb), "no intermediate buffer", "intermediate buffer operations %s" % [v.ck.split("::")[-1] for v in vec_ops])
+    rep.floor(R, "receive calls of the consumer", n, 1, ctx.where(cl))
+
+
 def d1_same_store_dispatcher(ctx, rep):
     """dispatchers handed to hooks and thunks wrap a clone of the store's own Arc"""
     A = ctx.A
@@ -337,7 +363,7 @@ def d1_same_store_dispatcher(ctx, rep):
                     n += 1
     except AnchorMissing as e:
         rep.anchor_missing(R, e.what)
-    rep.floor(R, "dispatcher hand-over sites", n, 8)
+    rep.floor(R, "dispatcher hand-over sites", n, 5)
 
 
 def _upvar_is_store(ctx, cl, k):
